@@ -77,11 +77,13 @@ pub fn run(ctx: &mut Ctx) {
         let reps = ctx.tier.pick(1, 6);
         for (t, len, part) in crate::gen::payload::pairwise_shapes() {
             
-            crate::gen::payload::pairwise_specials(t, len, part, reps, &mut mix, |b| {
-                ctx.sweep_case("pairwise-special-values", &crate::adapter::STD, &Input::Payload { bytes: b }, check);
-            });
+            for base in 0..3u8 {
+                crate::gen::payload::pairwise_specials(t, len, part, if base == 0 { reps } else { 1 }, base, &mut mix, |b| {
+                    ctx.sweep_case("pairwise-special-values", &crate::adapter::STD, &Input::Payload { bytes: b }, check);
+                });
+            }
         }
-        ctx.mark_exhaustive("pairwise-special-values", "every pair of fields of every layout (longest specified shape, and the shortest for the variable ones) x each field's special values (0, 1, max, max-1, 'not available' codes, MMSI station classes; all values of fields up to 3 bits), other bits random");
+        ctx.mark_exhaustive("pairwise-special-values", "every pair of fields of every layout (longest specified shape, and the shortest for the variable ones) x each field's special values (0, 1, max, max-1, 'not available' codes, MMSI station classes, time-stamp codes 60..63; all values of fields up to 3 bits), against three backgrounds: the other bits random, all zero, and 'everything unavailable'");
     }
     // decoding after an arbitrary history, in an unfragmented sentence or in a closing line without a group
     {
